@@ -5,6 +5,10 @@ props = [json.loads(l)['id'] for l in open('/verif/properties.jsonl')]
 TRUST = ("Trusted: go/packages+go/ssa fidelity and our SSA->SMT translation (subset stated in DESIGN 2.1/2.2), 64-bit int, "
          "soundness of z3 4.8.12 / z3 5.1.0 / cvc5 1.0.3, stdlib models of DESIGN 2.2, every contract marked assumed (listed in the evidence file). ")
 claimed = {
+ 'C06': dict(
+   text="Deductive proof of the Shape-interface slice for *LaxLoop, *LaxPolyline, *LaxPolygon, *PointVector, *Polyline, *Loop: for every well-formed shape value (all vertex arrays, all lengths) chains partition the edge ids, ChainEdge(i,j) is bit-identical to Edge(Chain(i).Start+j), ChainPosition inverts Chain, and none of these calls can index out of range (search loops by invariant and decreases). That index answers equal brute force over float clipping is NOT decided.",
+   note=TRUST+"Unverified remainder: ShapeIndex contents vs brute force (edge clipping, containsCenter: floating point); Polygon shape methods.",
+   design="3 C06"),
  'C01': dict(
    text="Deductive proof, for all 2^64 words, of the integer cell-id algebra: validity, level, parent/child/range relations, children partition the parent's leaf range in curve order, Contains/Intersects equal range nesting, laminarity, Next/Prev/NextWrap/PrevWrap/Advance, CommonAncestorLevel, MaxTile (loops by invariant, termination by decreases), face/pos/level construction. Point->cell geometric containment and neighbour touching are floating point and are NOT decided (named in evidence assumptions).",
    note=TRUST+"Unverified remainder: point-to-cell geometric containment, neighbours touch (float projection).",
